@@ -599,6 +599,13 @@ class SimDevice:
         if op == ops["chunk"] and b["expect"] == "chunk":
             kind, blk = b["cur"]
             blk["data"] += payload
+            # a host that keeps answering with nothing is cut off (the firmware checks chunk lengths: PROT_INVALID)
+            blk["empties"] = blk.get("empties", 0) + 1 if len(payload) == 0 else 0
+            if blk["empties"] > 3:
+                b["result"] = "sw:6b87"
+                self.blk_log.append(b)
+                self.blk = None
+                return 0x6B87, b""
             r = hook(self, "chunk", blk) if hook else None
             if r:
                 return self._blk_answer(r, H, ops)
@@ -639,6 +646,12 @@ class SimDevice:
             blk = b["blocks"][-1]
             kind, bro = b["cur"]
             bro["data"] += payload
+            bro["empties"] = bro.get("empties", 0) + 1 if len(payload) == 0 else 0
+            if bro["empties"] > 3:
+                b["result"] = "sw:6b87"
+                self.blk_log.append(b)
+                self.blk = None
+                return 0x6B87, b""
             r = hook(self, "bro_chunk", bro) if hook else None
             if r:
                 return self._blk_answer(r, H, ops)
